@@ -5,6 +5,8 @@ import (
 	"io"
 	"strconv"
 	"strings"
+
+	"github.com/vektah/gqlparser/v2/gqlerror"
 )
 
 // Boom is the harness scalar of the core probe: its (un)marshalers fail on command, so checks
@@ -19,6 +21,9 @@ func (b *Boom) UnmarshalGQL(v any) error {
 	switch {
 	case strings.HasPrefix(s, "uerr:"):
 		return errors.New("BOOM-UNMARSHAL-ERROR " + s)
+	case strings.HasPrefix(s, "ugqlerr:"):
+		// the documented way to attach extensions to an input error: a *gqlerror.Error without a path
+		return &gqlerror.Error{Message: "BOOM-UNMARSHAL-GQLERROR " + s, Extensions: map[string]any{"code": "BOOM"}}
 	case strings.HasPrefix(s, "upanic:"):
 		panic("BOOM-UNMARSHAL-PANIC " + s)
 	}
